@@ -23,6 +23,9 @@ type Case struct {
 	File   ag.File `json:"file"`
 	Passes int     `json:"passes"`
 	Hold   int     `json:"held_at_once"` // the consumer acquires this many ammo before it reads any of them
+	// Preload: the provider option `preload: true` (docs/eng/providers.md, "HTTP Ammo preloaded": "the provider will load the ammo file into memory") - the file is
+	// read into memory once and replayed from there; what is delivered is the same file content, pass after pass
+	Preload bool `json:"preload,omitempty"`
 }
 
 func genCase(t *rapid.T) Case {
@@ -30,6 +33,7 @@ func genCase(t *rapid.T) Case {
 	c := Case{File: ag.Gen(t, format, ag.GenOpts{MinEntries: 1, MaxEntries: 8, AllowBig: true})}
 	c.Passes = rapid.IntRange(1, 3).Draw(t, "passes")
 	c.Hold = rapid.SampledFrom([]int{1, 1, 2, 4}).Draw(t, "hold")
+	c.Preload = rapid.Bool().Draw(t, "preload")
 	return c
 }
 
@@ -47,9 +51,12 @@ func check(c Case, o *vf.Obs) error {
 		defer pand.Remove(name)
 		conf["file"] = name
 	}
+	if c.Preload {
+		conf["preload"] = true
+	}
 	p, err := provrun.Build(conf)
 	if err != nil {
-		return fmt.Errorf("well-formed %s ammo file rejected at provider construction: %v\n%s", f.Format, err, f.Render())
+		return fmt.Errorf("well-formed %s ammo file rejected at provider construction (preload=%v): %v\n%s", f.Format, c.Preload, err, f.Render())
 	}
 	total := len(want) * c.Passes
 	k := 0
@@ -64,7 +71,7 @@ func check(c Case, o *vf.Obs) error {
 		}
 		w := want[k%len(want)]
 		if err := ag.Compare(w, g, extraOK); err != nil {
-			return fmt.Errorf("item %d (pass %d, entry %d of %d): %v", k, k/len(want), k%len(want), len(want), err)
+			return fmt.Errorf("preload=%v: item %d (pass %d, entry %d of %d): %v", c.Preload, k, k/len(want), k%len(want), len(want), err)
 		}
 		k++
 		return nil
@@ -73,14 +80,14 @@ func check(c Case, o *vf.Obs) error {
 		return fmt.Errorf("%v\n--- file (%s) ---\n%q", err, f.Format, f.Render())
 	}
 	if len(res.Items) != total {
-		return fmt.Errorf("%d items delivered, the file holds %d entries and passes=%d (expected %d); Run error: %v\n--- file (%s) ---\n%q",
-			len(res.Items), len(want), c.Passes, total, res.RunErr, f.Format, f.Render())
+		return fmt.Errorf("preload=%v: %d items delivered, the file holds %d entries and passes=%d (expected %d); Run error: %v\n--- file (%s) ---\n%q",
+			c.Preload, len(res.Items), len(want), c.Passes, total, res.RunErr, f.Format, f.Render())
 	}
 	if res.RunErr != nil {
-		return fmt.Errorf("provider.Run returned %v for a well-formed file\n%q", res.RunErr, f.Render())
+		return fmt.Errorf("preload=%v: provider.Run returned %v for a well-formed file\n%q", c.Preload, res.RunErr, f.Render())
 	}
 	if res.Hung != "" {
-		return fmt.Errorf("provider did not end by itself after %d passes: %s", c.Passes, res.Hung)
+		return fmt.Errorf("preload=%v: provider did not end by itself after %d passes: %s", c.Preload, c.Passes, res.Hung)
 	}
 	ents := f.Entries()
 	binary, zeroBody, tagRun, tagTab := false, false, false, false
@@ -112,6 +119,16 @@ func check(c Case, o *vf.Obs) error {
 	o.ClassIf(c.Passes > 1, "multi_pass")
 	o.ClassIf(c.Hold >= 2, "several_ammo_held_at_once")
 	o.ClassIf(f.Big, "file_larger_than_reader_buffer")
+	// the file is read through the preloading path (one LoadAmmo pass, then replay from memory), per format / layout
+	o.ClassIf(c.Preload, "preload")
+	o.ClassIf(c.Preload, "preload_"+f.Format)
+	o.ClassIf(c.Preload && f.Layout.JSON == "array", "preload_json_array")
+	o.ClassIf(c.Preload && f.Layout.JSON == "pretty", "preload_json_pretty")
+	o.ClassIf(c.Preload && c.Passes > 1, "preload_multi_pass")
+	o.ClassIf(c.Preload && f.Layout.NoFinalNL, "preload_no_final_newline")
+	o.ClassIf(c.Preload && f.MidFileDirective(), "preload_mid_file_directive")
+	o.ClassIf(c.Preload && f.Layout.Inline, "preload_inline_uris")
+	o.ClassIf(c.Preload && c.Hold >= 2, "preload_several_ammo_held_at_once")
 	// a tag whose words are separated by more than one space, or by tabs: tag text, delivered as written
 	o.ClassIf(tagRun, "tag_inner_blank_run")
 	o.ClassIf(tagRun, "tag_inner_blank_run_"+f.Format)
